@@ -5,6 +5,7 @@ O1 == 0 + (NSignFixed+NSignRand)
 Count == O1 + NBulk
 ItemAt(g) ==
   IF g <= O1 THEN SignAt(g - 0) ELSE BulkAt(g - O1)
+Histories == IF "VERIF_TIER" \in DOMAIN IOEnv /\ IOEnv.VERIF_TIER = "thorough" THEN 300 ELSE 40
 VARIABLE n
 INSTANCE GenBase
 =============================================================================
